@@ -547,5 +547,99 @@ theorem runAt_of_runs (hnp : NoProgs env) (b : Nat) {code : List Instr} {v : Val
 
 end
 
+/-! ### results of the binary operators are never identifiers -/
+
+theorem boe_eqList : ∀ (a b : List Val), BoolOrErr (eqList a b)
+  | [], _ => by simp [eqList, BoolOrErr]
+  | _ :: _, [] => by simp [eqList, BoolOrErr]
+  | x :: xs, y :: ys => by
+    rw [eqList]
+    split
+    · exact Or.inr ⟨_, rfl⟩
+    · exact boe_eqList xs ys
+    · exact Or.inl ⟨_, rfl⟩
+
+theorem boe_eqScalar (a b : Val) : BoolOrErr (eqScalar a b) := by
+  unfold eqScalar
+  split <;> exact Or.inl ⟨_, rfl⟩
+
+theorem boe_valEq (a b : Val) : BoolOrErr (valEq a b) := by
+  unfold valEq
+  split
+  · exact Or.inr ⟨_, rfl⟩
+  · split
+    · exact Or.inl ⟨_, rfl⟩
+    · exact boe_eqList _ _
+  · exact Or.inl ⟨_, rfl⟩
+  · exact Or.inr ⟨_, rfl⟩
+  · exact boe_eqScalar _ _
+
+theorem plain_of_boe {v : Val} (h : BoolOrErr v) : Plain v := by
+  rcases h with ⟨b, rfl⟩ | ⟨k, rfl⟩
+  · exact plain_bool _
+  · exact plain_err _
+
+theorem plain_valNe (a b : Val) : Plain (valNe a b) := by
+  unfold valNe
+  apply plain_errProp
+  intro a b
+  rcases boe_valEq a b with ⟨x, hx⟩ | ⟨k, hk⟩
+  · rw [hx]; exact plain_bool _
+  · rw [hk]; exact plain_err _
+
+theorem plain_rel (op : RelOp) (a b : Val) : Plain (rel op a b) := by
+  unfold rel
+  apply plain_errProp
+  intro a b
+  split
+  · exact plain_bool _
+  · exact plain_err _
+
+theorem plain_inOp (a b : Val) : Plain (inOp a b) := by
+  unfold inOp
+  apply plain_errProp
+  intro a b
+  split <;> first | exact plain_bool _ | exact plain_err _
+
+theorem plain_narrowI (r : Int) : Plain (narrowI r) := by
+  unfold narrowI; split <;> simp [Plain]
+theorem plain_narrowU (r : Int) : Plain (narrowU r) := by
+  unfold narrowU; split <;> simp [Plain]
+theorem plain_narrowTs (r : Int) : Plain (narrowTs r) := by
+  unfold narrowTs; split <;> simp [Plain]
+theorem plain_narrowDur (r : Int) : Plain (narrowDur r) := by
+  unfold narrowDur; split <;> simp [Plain]
+
+theorem plain_arith (op : ArithOp) (a b : Val) : Plain (arith op a b) := by
+  unfold arith
+  apply plain_errProp
+  intro a b
+  unfold arithCore
+  split
+  · unfold intArm; split <;> first | exact plain_err _ | exact plain_narrowI _
+  · unfold intArm; split <;> first | exact plain_err _ | exact plain_narrowI _
+  · unfold intArm; split <;> first | exact plain_err _ | exact plain_narrowI _
+  · unfold uintArm; split <;> first | exact plain_err _ | exact plain_narrowU _
+  · split <;> simp [Plain]
+  · unfold otherArm
+    split <;> first | exact plain_err _ | exact plain_narrowTs _ | exact plain_narrowDur _ | simp [Plain]
+
+theorem plain_apply (op : BinOp) (a b : Val) : Plain (op.apply a b) := by
+  cases op <;> simp only [BinOp.apply]
+  · exact plain_vOr _ _
+  · exact plain_vAnd _ _
+  · exact plain_rel _ _ _
+  · exact plain_rel _ _ _
+  · exact plain_rel _ _ _
+  · exact plain_rel _ _ _
+  · exact plain_of_boe (boe_valEq _ _)
+  · exact plain_valNe _ _
+  · exact plain_inOp _ _
+  · exact plain_arith _ _ _
+  · exact plain_arith _ _ _
+  · exact plain_arith _ _ _
+  · exact plain_arith _ _ _
+  · exact plain_arith _ _ _
+
 end Seq
 end Rscel
